@@ -213,7 +213,7 @@ def skey(sig):
 
 
 def run(ctx, only=None):
-    extra = ctx.pick(400, 12000)
+    extra = ctx.pick(400, 8000)
     cf = ctx.work / "cases.ndjson"
     if only is not None:            # replay: the stored case carries everything (tree, prediction, source)
         cases, pred, extra = list(only.values()), {}, 0
